@@ -15,6 +15,35 @@ CHECKS = {
             "a fresh object bit for bit.",
             "Trusted: the dense reference, g++/libstdc++, the documented matrix layout. Bounded by the alphabet and n.",
             "DESIGN.md 5/C14"),
+    "C15": ("histbfs", "model_checking",
+            "explicit-state BFS over operation histories on live objects, canonical-state deduplication, value-semantics model",
+            "Breadth-first search over all histories of construct / set entries / solve / copy- and move-construct / "
+            "copy- and move-assign (incl. self copy-assign, empty and moved-from sources) on three slots for Vector, "
+            "SparseMatrixCOO, SparseMatrixCSR, SparseLUSolver, SymmetricTridiagonalSolver and DiagonalSolver. States are "
+            "canonical strings of all visible and hidden fields plus the model; the search saturates (depth 6 quick, 9 "
+            "thorough). After every transition every live object is observed (element reads, solves against a dense "
+            "reference) and compared with the value-semantics model, under ASan+UBSan.",
+            "Trusted: the value-semantics model (moved-from == empty), the dense reference solve. Self-move-assignment "
+            "is outside the alphabet.",
+            "DESIGN.md 5/C15"),
+    "C16": ("enumerators", "model_checking",
+            "exhaustive enumeration of sparsity patterns x storage orders x constructors x scalings on the real solver, dense reference",
+            "All 2^(n(n-1)) off-diagonal sparsity patterns for n<=4, with every order of the entries within each row "
+            "(n<=3) or four canonical reorderings, explicit stored zeros, three CSR constructors, row scalings over 12 "
+            "orders of magnitude, non-dominant L*U products and structured families up to n=8 (12) are factorised and "
+            "solved by the real SparseLUSolver for all unit right-hand sides and three dense ones in sequence; judged by "
+            "a row-wise backward error in long double and bitwise against a fresh solver.",
+            "Trusted: dense long-double residual. Pivots below 1e-12 absolute (the solver's own cut-off) are outside the alphabet.",
+            "DESIGN.md 5/C16"),
+    "C17": ("enumerators", "model_checking",
+            "exhaustive enumeration of grid shapes x split classes x unwrapped indices against a reference numbering",
+            "Every grid with nr in 2..7 (11) and ntheta in {2,..,16 (32)} (power of two or not), uniform and irregular "
+            "coordinates, every class of explicit splitting radius plus the automatic split, is queried at every node and "
+            "for every unwrapped theta index in [-3ntheta-1, 3ntheta+1]; all index/multiIndex API pairs, neighbour and "
+            "spacing queries and the split partition are compared with a reference numbering; each grid is coarsened to "
+            "the smallest grid and every coarse grid is re-checked. Assertions on, ASan+UBSan.",
+            "Trusted: the reference numbering written from the documented layout.",
+            "DESIGN.md 5/C17"),
 }
 
 NOT_YET = {}
@@ -56,8 +85,11 @@ def main():
             "add_only": True,
         },
         "engines": [
-            {"name": "enumerators", "path": "harness/", "serves_properties": ["C14", "C15", "C16", "C17"],
+            {"name": "enumerators", "path": "harness/", "serves_properties": ["C14", "C16", "C17"],
              "kind_free_text": "nested-loop exhaustive enumerators over finite alphabets on the real classes"},
+            {"name": "histbfs", "path": "harness/c15_copymove.cpp", "serves_properties": ["C15"],
+             "kind_free_text": "explicit-state breadth-first search over operation histories on live objects, "
+                               "state = replayed history, dedup by canonical visible+hidden state"},
         ],
         "checks": checks,
         "not_applicable": na,
